@@ -120,6 +120,8 @@ class Gen:
             return IDX_FAMILY + [IX(r, "disp", q) for r in "YZ" for q in range(64)]
         if cls == "IxLpm":
             return IDX_LPM
+        if cls == "IxZinc":
+            return [IX("Z", "inc")]
         raise ToolError("unknown class " + cls)
 
     def representative(self, cls, addr):
@@ -133,7 +135,7 @@ class Gen:
             return E(min(hi, lo + 5))
         if cls == "IxF":
             return IX("Y", "disp", 5)
-        if cls == "IxLpm":
+        if cls in ("IxLpm", "IxZinc"):
             return IX("Z", "inc")
 
 
@@ -192,13 +194,15 @@ def confusions(cls, addr):
         out += [R(0), R(17), R(24), R(31)]
     if cls not in ("IxF",):
         out += [IX("X", "none"), IX("Y", "inc"), IX("Z", "dec"), IX("Y", "disp", 2), IX("Z", "disp", 63)]
-    if cls == "IxLpm":
+    if cls in ("IxLpm", "IxZinc"):
         out += [IX("Z", "dec"), IX("X", "none"), IX("Y", "none"), IX("X", "inc"), IX("Y", "inc"), IX("Z", "disp", 0), IX("Z", "disp", 1)]
+    if cls == "IxZinc":
+        out += [IX("Z", "none")]
     if cls == "IxF":
         out += [IX("X", "disp", 0), IX("X", "disp", 1), IX("X", "disp", 63)]
         out += [IX(r, "disp", q) for r in "YZ" for q in (-300, -129, -128, -65, -64, -2, -1, 64, 65, 127, 128, 191, 192, 255, 256, 257, 319, 320, 1000, 65536 + 3)]
         out += [IX("Y", "disp", h) for h in HUGE] + [IX("Z", "disp", -h) for h in HUGE]
-    if regish or cls in ("IxF", "IxLpm"):
+    if regish or cls in ("IxF", "IxLpm", "IxZinc"):
         out += [E(0), E(1), E(16), E(24), E(31), E(-1), E(255)]
     return out
 
